@@ -13,6 +13,18 @@ CHECKS = {
     'C04': dict(cat='model_checking', tech='TLA+ Lifecycle.tla: TLC exhaustive (M), mock-lint replay of every terminal state (G), spied real lints x corpus validated by Trace_Exec against Base!Outcome (V)',
                 text='One action per step of base.go, exhaustive over scope facts x source class x configuration outcome x applicability x window x body outcome (incl. panic, nil); every terminal state replayed with mock lints; every real lint run spied under the real framework on every corpus object and compared with the reference Outcome computed by TLC from raw parsed facts.',
                 note='scope indications read from parsed fields by the harness (EKU ids, policy OIDs, e-mail SAN); details compared by digest', ref='5 C04'),
+    'C06': dict(cat='model_checking', tech='TLA+ Severity.tla over an extracted finite table: SSA census of every status constant stored into a result on every return path of every lint (exhaustive over the table) + observed statuses validated by Trace_Severity',
+                text='The quantifier is over all lints and all return paths: a go/packages+SSA extractor lists, per registered lint, the status constants its Execute can store (tested or not); TLC checks the prefix contract over the whole table and over every status observed in the corpus sweep.',
+                note='SSA extraction precise for constants stored directly/through phi; other flows gate only with a dynamic witness; 9 known findings', ref='5 C06'),
+    'C08': dict(cat='model_checking', tech='TLA+ Registry.tla: TLC exhaustive over the bounded option space and filter chains (M), every option record replayed on a real 5-lint registry (G), seeded adversarial FilterOptions on the full registry validated by Trace_Registry against FilterResult (V)',
+                text='Filter is specified as a function of (registry, options) with the five-way precedence, trimming, unknown-name and conflict errors; 131k option records are model-checked and each replayed on the real code; thousands of random option records over the real 377-lint registry are validated against the same operator.',
+                note='regexp match sets and TrimSpace computed by the Go standard library in the harness', ref='5 C08'),
+    'C12': dict(cat='model_checking', tech='TLA+ RegistryOps table model driven by the 377 real registrations (Trace_Registry), census of the source tree from go/packages, exhaustive over the finite extracted table',
+                text='Every registration of the default build is replayed through the table model (duplicate / cross-kind / metadata well-formedness checked per step), the runtime lookups are compared with the model tables, and the AST census of Register* calls, lint-shaped types and lint package directories must equal the registry.',
+                note='census from go/packages AST; name order = Go string order', ref='5 C12'),
+    'C13': dict(cat='model_checking', tech='TLA+ Select.tla (listed => accepted, undefined => rejected) checked by TLC; every listed name/source and a pool of unknown tokens offered to every library and CLI selector entry point, validated by Trace_Select',
+                text='Exhaustive over what the registry lists: each of the 377 names and 15 sources goes through include/exclude names, SourceList/LintSource parsers, JSON round trip, Filter by source and the CLI flags; unknown tokens must be rejected.',
+                note='defined sources extracted from v3/lint constants; CLI judged by exit status', ref='5 C13'),
 }
 
 
